@@ -22,7 +22,7 @@ import z3
 
 from . import ops
 from .explore import SymRaise
-from .values import (Sym, SBool, SInt, SReal, SFP, SStr, SBytes, SHex, SOpaque, Unsupported, SNorm,
+from .values import (Sym, SBool, SInt, SReal, SFP, SStr, SBytes, SHex, SOpaque, Unsupported, SNorm, SBytesBV,
                      contains_sym, pytype_of, FP64, RNE, fp_const)
 
 BUILTIN_NAMES = {
@@ -113,7 +113,7 @@ class _HashMethod:
         if self.name == "digest":
             if all(isinstance(c, bytes) for c in h.data):
                 return getattr(hashlib, h.alg)(b"".join(h.data)).digest()
-            raise Unsupported("raw digest bytes of symbolic data")
+            return SBytesBV(_digest_term(ctx, h))
         raise Unsupported("hash method %s" % self.name)
 
 
@@ -256,6 +256,12 @@ def m_int(ctx, interp, args, kwargs):
     if isinstance(v, SReal):
         t = v.term
         return SInt(z3.If(t >= 0, z3.ToInt(t), -z3.ToInt(-t)))
+    if isinstance(v, SFP):
+        t = v.term
+        if ctx.branch(z3.Or(z3.fpIsNaN(t), z3.fpIsInf(t))):
+            raise SymRaise(ValueError("cannot convert float NaN/infinity to integer"))
+        r = z3.fpRoundToIntegral(z3.RTZ(), t)
+        return SInt(z3.BV2Int(z3.fpToSBV(z3.RTZ(), r, z3.BitVecSort(72)), True))
     if isinstance(v, SStr):
         # decimal digits only (what the lexer's NON_NEG_INTEGER rule hands over);
         # anything else is outside the model
@@ -269,6 +275,25 @@ def m_int(ctx, interp, args, kwargs):
             return SInt(z3.Function("py_int_parse", z3.StringSort(), z3.IntSort())(v.term))
         raise Unsupported("int() of a symbolic str that is not all decimal digits")
     raise Unsupported("int() of %s" % type(v).__name__)
+
+
+def m_int_from_bytes(ctx, interp, args, kwargs):
+    v = args[0]
+    order = args[1] if len(args) > 1 else kwargs.get("byteorder", "big")
+    signed = kwargs.get("signed", False)
+    if not contains_sym(args) and not contains_sym(kwargs):
+        try:
+            return int.from_bytes(*args, **kwargs)
+        except Exception as e:
+            raise SymRaise(e)
+    if isinstance(v, SBytesBV) and order in ("big", "little") and signed is False:
+        t = v.term
+        if order == "little":
+            n = v.nbytes
+            parts = [z3.Extract(8 * i + 7, 8 * i, t) for i in range(n)]   # least significant byte first
+            t = z3.Concat(*parts) if n > 1 else parts[0]
+        return SInt(z3.BV2Int(t, False), bv=t)
+    raise Unsupported("int.from_bytes on %s" % type(v).__name__)
 
 
 def m_float(ctx, interp, args, kwargs):
@@ -850,7 +875,7 @@ def _native_table():
         print: m_print, list: m_list, tuple: m_tuple, set: m_set, dict: m_dict, hash: m_hash,
         id: m_id, type: m_type, range: m_range, enumerate: m_enumerate, zip: m_zip, sum: m_sum,
         any: m_any, all: m_all, min: _minmax(True), max: _minmax(False), property: m_property,
-        compile: m_compile, callable: m_callable, staticmethod: m_staticmethod, round: m_round, ord: m_ord, chr: m_chr,
+        compile: m_compile, callable: m_callable, staticmethod: m_staticmethod, int.from_bytes: m_int_from_bytes, round: m_round, ord: m_ord, chr: m_chr,
         reversed: m_reversed, frozenset: m_set,
         functools.partial: m_partial, functools.lru_cache: m_lru_cache, functools.cache: m_cache, functools.wraps: m_wraps, itertools.accumulate: m_accumulate, itertools.repeat: m_repeat,
         math.floor: m_floor, math.isfinite: m_isfinite, math.log: m_log, math.sqrt: m_sqrt, math.isclose: m_isclose,
